@@ -1,3 +1,4 @@
+import ProfiVerif.Driver.Apps
 import ProfiVerif.Driver.Codec
 open PV PV.Driver
 
@@ -10,6 +11,8 @@ def main (args : List String) : IO UInt32 := do
   let inp ← IO.getStdin
   let out ← IO.getStdout
   match args with
+  | ["model", "apps"] => engineLoop (fun (st : AppsState) l => stepApps st (splitWords l)) {} inp out; return 0
   | ["model", "codec"] => engineLoop (fun (_ : Unit) l => ((), (stepCodec (splitWords l)).getD "bad-op")) () inp out; return 0
+  | ["oracle", "C18", o, i] => oracleLoop oracleC18 {} o i
   | ["oracle", "C09", o, i] => oracleLoop (fun (_ : Unit) op obs => ((), oracleC09 op obs)) () o i
   | _ => IO.eprintln "usage: pvdriver model <engine> | oracle <name> <ops> <impl>"; return 2
